@@ -10,6 +10,7 @@ package skq
 
 import (
 	"os"
+	"strconv"
 	"syscall"
 	"unsafe"
 
@@ -622,6 +623,11 @@ func Kevent(kqfd int, changes, events []Kevent_t, timeout *Timespec) (int, error
 		q.notes = keep
 	}
 	k.Retrievals++
+	ids := ""
+	for i := 0; i < n; i++ {
+		ids += strconv.Itoa(int(events[i].Ident)) + ","
+	}
+	k.log("kevent.read", kqfd, ids, nil)
 	if n > k.MaxBatch {
 		k.MaxBatch = n
 	}
